@@ -16,7 +16,7 @@ from mc.props import _seqbind as SB
 from mc.props.C08 import enc_ast, dec_ast
 
 XML1 = '<a id="r"><b id="1">t1</b><b id="2"><c>t2</c></b>tail<!--k--><b id="3"/></a>'
-XML2 = '<a><c><b id="9">z</b></c><b/></a>'
+XML2 = '<a><c><b id="9">z</b>u</c><b/>w<!--k2-->x</a>'
 NS = {'p': 'urn:p'}
 
 EXPRS = [
@@ -43,9 +43,13 @@ EXPRS = [
     "for-each(('a', 'b'), $f(?, '!'))", "$arr?2", 'array:append($arr, 9)?*', 'array:put($arr, 1, $n)?1', 'array:size($arr)',
     "array:insert-before($arr, 1, 0)?1", "array:remove($arr, 1)?1", "map:put($m, 'k', $n)?k", "map:remove($m, 'a')?b", "map:size($m)", "$m?a",
     'count(//b) + $n', 'if ($n > 4) then //b[1] else //b[2]', '(//b | //c)', '(//b except //b[1])', 'root(.)', 'path((//b)[2])',
+    # functions that copy, serialise or re-parse nodes of the caller's document (elements followed by text included)
+    'serialize((//b)[1])', 'serialize(//b)', 'serialize(//c)', 'string-length(serialize(.))', 'serialize(//comment())', 'parse-xml(serialize((//b)[1]))/*/@id',
+    'deep-equal((//b)[1], (//b)[2])', 'deep-equal(//b, //b)', 'string-join(//*/string(.), "|")', 'data(//b)', 'innermost(//*)', 'outermost(//b)',
+    "serialize(map{'a': $n, 'b': $lst}, map{'method': 'json'})", "xml-to-json(json-to-xml('[1, 2]'))", 'serialize($arr, map{"method": "json"})',
 ]
 OPS = ['select', 'iter', 'iter-abandon', 'evaluate']
-CONFIGS = [(0, 0, None), (1, 1, '+05:00'), (0, 1, '+05:00'), (1, 0, None)]   # (document, variable map, timezone)
+CONFIGS = [(0, 0, None), (1, 1, '+05:00'), (0, 1, '+05:00'), (1, 0, None), (0, 2, None)]   # (document, variable map, timezone); map 2 has other shapes and lacks names
 
 
 def plan(tier, seed):
@@ -94,7 +98,14 @@ def make_vars():
         v['f'] = p.parse('function($a, $b) { concat($a, "-", $b) }').evaluate(XPathContext(root=None, item=1))
         v['arr'] = p.parse('[1, (2, 3), "x"]').evaluate(XPathContext(root=None, item=1))
         v['m'] = p.parse('map{"a": 1, "b": (2, 3)}').evaluate(XPathContext(root=None, item=1))
-    return [v1, v2]
+    # the same names with other shapes (a list where the others have one item and vice versa) and two names missing
+    v3 = dict(v1)
+    v3['n'] = [5, 6]
+    v3['lst'] = 7
+    v3['s'] = ['x-y']
+    del v3['dec']
+    del v3['t']
+    return [v1, v2, v3]
 
 
 def snap_value(v):
@@ -199,7 +210,7 @@ def step(su, op, cfg):
     import datetime
     di, vi, tz = cfg
     doc, variables = su.docs[di], su.vars[vi]
-    before = (snap_doc(su.docs[0]), snap_doc(su.docs[1]), snap_vars(su.vars[0]), snap_vars(su.vars[1]), tuple(sorted(su.ns.items())))
+    before = (snap_doc(su.docs[0]), snap_doc(su.docs[1]), snap_vars(su.vars[0]), snap_vars(su.vars[1]), snap_vars(su.vars[2]), tuple(sorted(su.ns.items())))
     kw = dict(variables=variables, timezone=tz, current_dt=datetime.datetime(2020, 1, 1, tzinfo=datetime.timezone.utc))
     extra = None
     try:
@@ -229,9 +240,9 @@ def step(su, op, cfg):
         r = ('error', (e.code or '').split(':')[-1])
     except Exception as e:  # noqa
         r = ('escape', type(e).__name__ + ':' + str(e)[:60])
-    after = (snap_doc(su.docs[0]), snap_doc(su.docs[1]), snap_vars(su.vars[0]), snap_vars(su.vars[1]), tuple(sorted(su.ns.items())))
+    after = (snap_doc(su.docs[0]), snap_doc(su.docs[1]), snap_vars(su.vars[0]), snap_vars(su.vars[1]), snap_vars(su.vars[2]), tuple(sorted(su.ns.items())))
     effects = []
-    for name, b, a in zip(('document-0', 'document-1', 'variables-0', 'variables-1', 'namespaces'), before, after):
+    for name, b, a in zip(('document-0', 'document-1', 'variables-0', 'variables-1', 'variables-2', 'namespaces'), before, after):
         if a != b:
             detail = ''
             if name.startswith('variables'):
